@@ -248,11 +248,23 @@ def render(kind, res, post0, post1, subs, self_alias=False, elem_kind="Int"):
     return "%s | %s | %s" % (head, _show_items(post0, subs, elem_kind), third)
 
 
+def _enabled(c):
+    """a path is enabled on concrete inputs if its condition is true, or - when it still mentions environment choices that are not
+    inputs (e.g. whether an empty vector ever allocated) - satisfiable; all enabled paths must then agree"""
+    if z3.is_true(c):
+        return True
+    if z3.is_false(c):
+        return False
+    so = z3.Solver()
+    so.add(c)
+    return so.check() == z3.sat
+
+
 def eval_summary(s, ev, fv, xv):
     subs = _subs(s, ev, fv, xv)
     hits = []
     for pc, kind, res, post0, post1 in s.paths:
-        if z3.is_true(z3.simplify(z3.substitute(pc, *subs))):
+        if _enabled(z3.simplify(z3.substitute(pc, *subs))):
             hits.append(render(kind, res, post0, post1, subs, self_alias=(s.method == "join_self"),
                                elem_kind="SomeInt" if s.method == "index_of_opt" else "Int"))
     if not hits or any(h != hits[0] for h in hits):
